@@ -91,6 +91,10 @@ RULE = ("correspondence: to_local on random elliptic/hyperbolic/retrograde state
 
 LOCAL_PY = os.path.join(core.REPO, "beyond", "frames", "local.py")
 MAN_PY = os.path.join(core.REPO, "beyond", "orbits", "man.py")
+KN_PY = os.path.join(core.REPO, "beyond", "propagators", "keplernum.py")
+FRAMES_PY = os.path.join(core.REPO, "beyond", "frames", "frames.py")
+ORIENT_PY = os.path.join(core.REPO, "beyond", "frames", "orient.py")
+FORMS_PY = os.path.join(core.REPO, "beyond", "orbits", "forms.py")
 MU = 3.986004418e14
 
 
@@ -106,6 +110,288 @@ def _ret_of(tree, qualname):
     if len(rets) != 1:
         raise py2lean.Untranslatable(f"{qualname}: expected a single top-level return")
     return fn, rets[0].value
+
+
+def _n(node):
+    """source text of a node, blanks removed, identifiers NFKC-normalised as Python's parser does"""
+    import unicodedata
+    return unicodedata.normalize("NFKC", ast.unparse(node)).replace(" ", "")
+
+
+def _body_nodoc(fn):
+    b = list(fn.body)
+    if b and isinstance(b[0], ast.Expr) and isinstance(b[0].value, ast.Constant) and isinstance(b[0].value.value, str):
+        b = b[1:]
+    return b
+
+
+def _lstr(x):
+    return '"' + x.replace("\\", "\\\\").replace('"', '\\"') + '"'
+
+
+# ---- (a) Butcher tableaux: nodes as the exact ratios of the floats (so that `step * c` rounds as in Python), weights as
+#          integers over their common denominator
+def extract_butcher():
+    from fractions import Fraction
+    from math import lcm
+    from beyond.propagators.keplernum import KeplerNum
+    lines = []
+    for meth in ("euler", "rk4", "rkf54", "dopri54"):
+        tb = KeplerNum.BUTCHER[meth]
+        cc = [float(c) for c in tb["c"]]
+        bb = [float(b) for b in tb["b"]]
+        if len(cc) != len(bb):
+            raise RuntimeError(f"Butcher tableau {meth}: {len(cc)} nodes for {len(bb)} weights")
+        ratios = [c.as_integer_ratio() for c in cc]
+        lines.append(f"def butcherC_{meth} : List (Int × Int) := [" + ", ".join(f"({a}, {b})" for a, b in ratios) + "]")
+        fb = [Fraction(b).limit_denominator(1000000) for b in bb]
+        if any(abs(float(f) - b) > 1e-15 for f, b in zip(fb, bb)):
+            raise RuntimeError("Butcher weights are not small fractions")
+        den = lcm(*[f.denominator for f in fb])
+        lines.append(f"def butcherW_{meth} : List Int := [" + ", ".join(str(int(f * den)) for f in fb) + "]")
+        lines.append(f"def butcherD_{meth} : Int := {den}")
+    return "\n".join(lines)
+
+
+# ---- (b) loop structure of KeplerNum._accel
+GRAV_STMTS = ["orb_body=body.propagate(orb.date)", "orb_body.frame=orb.frame", "diff=orb_body[:3]-orb[:3]", "norm=linalg.norm(diff)**3",
+              "new_body[3:]+=body.μ*diff/norm"]
+THRUST_TEST = "isinstance(man,ContinuousMan)andman.check(orb.date)"
+THRUST_ADD = "new_body[3:]+=man.accel(orb)"
+
+
+def _accel_block(stmts, in_body, in_man, depth):
+    """items of one loop body: ('grav',) | ('thrust',) | ('bodies', [...]) | ('mans', [...]); refuses anything else"""
+    items = []
+    k = 0
+    while k < len(stmts):
+        st = stmts[k]
+        if _n(st) == GRAV_STMTS[0]:
+            got = [_n(x) for x in stmts[k:k + len(GRAV_STMTS)]]
+            if got != GRAV_STMTS:
+                raise py2lean.Untranslatable(f"_accel: the attraction of a body is no longer computed by {GRAV_STMTS}: {got}")
+            if not in_body:
+                raise py2lean.Untranslatable("_accel: attraction computed outside `for body in self.bodies`")
+            items.append(("grav",))
+            k += len(GRAV_STMTS)
+            continue
+        if isinstance(st, ast.If):
+            if _n(st.test) != THRUST_TEST or st.orelse or [_n(x) for x in st.body] != [THRUST_ADD]:
+                raise py2lean.Untranslatable("_accel: unknown conditional " + _n(st)[:120])
+            if not in_man:
+                raise py2lean.Untranslatable("_accel: thrust added outside `for man in self.orbit.maneuvers`")
+            items.append(("thrust",))
+            k += 1
+            continue
+        if isinstance(st, ast.For):
+            if depth >= 2:
+                raise py2lean.Untranslatable("_accel: loops nested more than two deep")
+            items.append(_accel_loop(st, in_body, in_man, depth))
+            k += 1
+            continue
+        raise py2lean.Untranslatable(f"_accel: unknown statement at line {st.lineno}: " + _n(st)[:120])
+    return items
+
+
+def _accel_loop(st, in_body, in_man, depth):
+    if st.orelse:
+        raise py2lean.Untranslatable("_accel: for/else")
+    head = (_n(st.target), _n(st.iter))
+    if head == ("body", "self.bodies"):
+        return ("bodies", _accel_block(st.body, True, in_man, depth + 1))
+    if head == ("man", "self.orbit.maneuvers"):
+        return ("mans", _accel_block(st.body, in_body, True, depth + 1))
+    raise py2lean.Untranslatable(f"_accel: unknown loop `for {head[0]} in {head[1]}`")
+
+
+def extract_accel_loop(tree):
+    fn = py2lean.find_function(tree, "KeplerNum._accel")
+    if [a.arg for a in fn.args.args] != ["self", "orb"]:
+        raise py2lean.Untranslatable("_accel signature changed")
+    body = _body_nodoc(fn)
+    if [_n(x) for x in body[:2]] != ["new_body=zeros(6)", "new_body[:3]=orb[3:]"] or _n(body[-1]) != "returnnew_body":
+        raise py2lean.Untranslatable("_accel: initialisation / return changed: " + str([_n(x) for x in body[:2]] + [_n(body[-1])]))
+    tops = []
+    for st in body[2:-1]:
+        if not isinstance(st, ast.For):
+            raise py2lean.Untranslatable(f"_accel: top-level statement that is not a loop at line {st.lineno}: " + _n(st)[:120])
+        tops.append(_accel_loop(st, False, False, 0))
+
+    def leaf(it):
+        return "Leaf.grav" if it[0] == "grav" else "Leaf.thrust"
+
+    def inner(it):
+        if it[0] in ("grav", "thrust"):
+            return f"Inner.leaf {leaf(it)}"
+        if any(x[0] not in ("grav", "thrust") for x in it[1]):
+            raise py2lean.Untranslatable("_accel: loops nested more than two deep")
+        return ("Inner.overBodies [" if it[0] == "bodies" else "Inner.overMans [") + ", ".join(leaf(x) for x in it[1]) + "]"
+
+    def top(it):
+        return ("Top.overBodies [" if it[0] == "bodies" else "Top.overMans [") + ", ".join(inner(x) for x in it[1]) + "]"
+    prog = "[" + ", ".join(top(t) for t in tops) + "]"
+    text = ("/- GENERATED by harness/props/C17.py from beyond/propagators/keplernum.py (`KeplerNum._accel`: which loop contains which\n"
+            "   accumulation, nesting as given by the indentation) — do not edit. -/\n"
+            "import BeyondVerif.Model.AccelLoop\nnamespace BeyondVerif.Generated.AccelLoopSrc\nopen BeyondVerif.AccelLoop\n\n"
+            "/-- the statements of `_accel` after `new_body = zeros(6); new_body[:3] = orb[3:]` and before `return new_body` -/\n"
+            f"def accelProg : List Top := {prog}\n\nend BeyondVerif.Generated.AccelLoopSrc\n")
+    grav = ("/-- `diff = orb_body[:3] - orb[:3]; norm = linalg.norm(diff) ** 3; body.µ * diff / norm` (statements matched verbatim) -/\n"
+            "def gravTerm (mu : R) (bodyPos pos : V3) : V3 :=\n"
+            "  let diff : V3 := V3.sub bodyPos pos\n"
+            "  let norm : R := powi (V3.norm diff) 3\n"
+            "  V3.divS (V3.smul mu diff) norm\n")
+    return text, grav
+
+
+# ---- (c) frame names: constructors, projections, to_local, orbit2frame
+def _ctor_upper(tree, cls):
+    fn = py2lean.find_function(tree, cls + ".__init__")
+    upper, assigned = False, False
+    for st in fn.body:
+        txt = _n(st)
+        if isinstance(st, ast.If) and _n(st.test) == "isinstance(frame,str)":
+            if [_n(x) for x in st.body] != ["frame=frame.upper()"] or st.orelse or assigned:
+                raise py2lean.Untranslatable(f"{cls}.__init__: unknown normalisation of `frame`: {txt}")
+            upper = True
+            continue
+        if txt == "self.frame=frame":
+            assigned = True
+            continue
+        for node in ast.walk(st):
+            if (isinstance(node, ast.Name) and node.id == "frame" and isinstance(node.ctx, ast.Store)) or \
+               (isinstance(node, ast.Attribute) and node.attr == "frame" and isinstance(node.ctx, ast.Store)):
+                raise py2lean.Untranslatable(f"{cls}.__init__: `frame` is assigned in an unknown way: {txt[:100]}")
+    if not assigned:
+        raise py2lean.Untranslatable(f"{cls}.__init__ no longer stores self.frame = frame")
+    return upper
+
+
+def _proj_tags(tree, qual, vec):
+    fn = py2lean.find_function(tree, qual)
+    body = [s for s in _body_nodoc(fn) if not (isinstance(s, ast.Expr) and _n(s).startswith("log.debug("))]
+    if len(body) != 4 or not isinstance(body[1], ast.If):
+        raise py2lean.Untranslatable(f"{qual}: unknown shape")
+    iff = body[1]
+    t = iff.test
+    ok = (_n(body[0]) == "orb=orb.copy(form='cartesian')" and isinstance(t, ast.Compare) and _n(t.left) == "self.frame" and len(t.ops) == 1
+          and isinstance(t.ops[0], ast.In) and isinstance(t.comparators[0], (ast.Tuple, ast.List))
+          and all(isinstance(e, ast.Constant) and isinstance(e.value, str) for e in t.comparators[0].elts)
+          and [_n(x) for x in iff.body] == ["mat=to_local(self.frame,orb,expanded=False).T"] and [_n(x) for x in iff.orelse] == ["mat=np.identity(3)"]
+          and _n(body[2]) == f"projected_{vec}=mat@self._{vec}" and _n(body[3]) == f"returnprojected_{vec}")
+    if not ok:
+        raise py2lean.Untranslatable(f"{qual}: the projection is no longer `to_local(self.frame, orb).T if self.frame in (...) else identity`: " + _n(fn)[:300])
+    return [e.value for e in t.comparators[0].elts]
+
+
+def _to_local_table(tree):
+    fn = py2lean.find_function(tree, "to_local")
+    if [a.arg for a in fn.args.args] != ["frame", "orbit", "expanded"]:
+        raise py2lean.Untranslatable("to_local signature changed")
+    body = _body_nodoc(fn)
+    if len(body) != 3 or not isinstance(body[0], ast.If) or _n(body[1]).replace("\n", "") != "ifexpanded:m=expand(m)" or _n(body[2]) != "returnm":
+        raise py2lean.Untranslatable("to_local: unknown shape " + str([_n(x)[:60] for x in body]))
+    table = []
+    node = body[0]
+    while True:
+        t = node.test
+        if not (isinstance(t, ast.Compare) and len(t.ops) == 1 and isinstance(t.ops[0], ast.Eq) and isinstance(t.comparators[0], ast.Constant)
+                and isinstance(t.comparators[0].value, str) and _n(t.left) in ("frame.upper()", "frame")):
+            raise py2lean.Untranslatable("to_local: unknown test " + _n(t))
+        if len(node.body) != 1 or _n(node.body[0]) not in ("m=to_qsw(orbit)", "m=to_tnw(orbit)"):
+            raise py2lean.Untranslatable("to_local: unknown branch " + _n(node)[:100])
+        table.append((t.comparators[0].value, _n(t.left) == "frame.upper()", 0 if "to_qsw" in _n(node.body[0]) else 1))
+        if len(node.orelse) == 1 and isinstance(node.orelse[0], ast.If):
+            node = node.orelse[0]
+            continue
+        if len(node.orelse) == 1 and isinstance(node.orelse[0], ast.Raise) and _n(node.orelse[0]).startswith("raiseValueError("):
+            break
+        raise py2lean.Untranslatable("to_local: the chain does not end in `raise ValueError`")
+    return table
+
+
+def _orbit2frame_tags(tree_frames, tree_orient):
+    fn = py2lean.find_function(tree_frames, "orbit2frame")
+    iff = [s for s in fn.body if isinstance(s, ast.If) and _n(s.test) == "orientationisNone"]
+    if len(iff) != 1 or [_n(x) for x in iff[0].body] != ["orientation=ref_orbit.frame.orientation"] or len(iff[0].orelse) != 2:
+        raise py2lean.Untranslatable("orbit2frame: unknown handling of `orientation`")
+    chk, mk = iff[0].orelse
+    t = chk.test if isinstance(chk, ast.If) else None
+    if not (t is not None and isinstance(t, ast.Compare) and len(t.ops) == 1 and isinstance(t.ops[0], ast.NotIn) and _n(t.left) in ("orientation.upper()", "orientation")
+            and isinstance(t.comparators[0], (ast.Tuple, ast.List)) and all(isinstance(e, ast.Constant) and isinstance(e.value, str) for e in t.comparators[0].elts)
+            and len(chk.body) == 1 and isinstance(chk.body[0], ast.Raise) and _n(chk.body[0]).startswith("raiseValueError(") and not chk.orelse
+            and _n(mk) == "orientation=orient.LocalOrbitalOrientation(name,ref_orbit,orientation,parent)"):
+        raise py2lean.Untranslatable("orbit2frame: unknown check of the orientation name: " + _n(iff[0])[:300])
+    ini = py2lean.find_function(tree_orient, "LocalOrbitalOrientation.__init__")
+    tp = py2lean.find_function(tree_orient, "LocalOrbitalOrientation._to_parent")
+    if "self.orient=orient" not in [_n(x) for x in ini.body] or _n(tp.body[-1]).replace("(", "").replace(")", "") != "returnlocal.to_localself.orient,sv,expanded=False.T,None":
+        raise py2lean.Untranslatable("LocalOrbitalOrientation no longer hands its `orient` to to_local: " + _n(tp.body[-1]))
+    return [e.value for e in t.comparators[0].elts], _n(t.left) == "orientation.upper()"
+
+
+def extract_frame_names(tree_man, tree_local, tree_frames, tree_orient):
+    imp_up, cont_up = _ctor_upper(tree_man, "ImpulsiveMan"), _ctor_upper(tree_man, "ContinuousMan")
+    imp_tags, cont_tags = _proj_tags(tree_man, "ImpulsiveMan.dv", "dv"), _proj_tags(tree_man, "ContinuousMan.accel", "accel")
+    table = _to_local_table(tree_local)
+    o2f_tags, o2f_up = _orbit2frame_tags(tree_frames, tree_orient)
+    kc = py2lean.find_function(tree_man, "KeplerianContinuousMan.__init__")
+    first = kc.body[0]
+    if not (isinstance(first, ast.Assign) and _n(first.targets[0]) == "kwargs['frame']" and isinstance(first.value, ast.Constant) and isinstance(first.value.value, str)
+            and _n(kc.body[-1]) == "super().__init__(date,duration,accel=np.zeros(3),**kwargs)"):
+        raise py2lean.Untranslatable("KeplerianContinuousMan.__init__ no longer forces its frame: " + _n(kc)[:200])
+    kd = py2lean.find_function(tree_man, "KeplerianImpulsiveMan.dv")
+    if _n(kd.body[-1]) != "returnto_tnw(orb).T@self._dv":
+        raise py2lean.Untranslatable("KeplerianImpulsiveMan.dv no longer returns to_tnw(orb).T @ self._dv")
+    b = lambda x: "true" if x else "false"   # noqa: E731
+    sl = lambda xs: "[" + ", ".join(_lstr(x) for x in xs) + "]"   # noqa: E731
+    return ("/- GENERATED by harness/props/C17.py from beyond/orbits/man.py, beyond/frames/local.py, beyond/frames/frames.py — do not edit. -/\n"
+            "namespace BeyondVerif.Generated.FrameNames\n\n"
+            "/-- `ImpulsiveMan.__init__` contains `if isinstance(frame, str): frame = frame.upper()` before `self.frame = frame` -/\n"
+            f"def impCtorUpper : Bool := {b(imp_up)}\n"
+            "/-- the same for `ContinuousMan.__init__` -/\n"
+            f"def contCtorUpper : Bool := {b(cont_up)}\n"
+            "/-- `ImpulsiveMan.dv`: `if self.frame in (...)` -/\n"
+            f"def impDvTags : List String := {sl(imp_tags)}\n"
+            "/-- `ContinuousMan.accel`: `if self.frame in (...)` -/\n"
+            f"def contAccelTags : List String := {sl(cont_tags)}\n"
+            "/-- `to_local`: the `if/elif` chain, `(constant, compared with frame.upper()?, 0 = to_qsw | 1 = to_tnw)`; else `raise ValueError` -/\n"
+            "def toLocalTable : List (String × Bool × Nat) := [" + ", ".join(f"({_lstr(k)}, {b(u)}, {f})" for k, u, f in table) + "]\n"
+            "/-- `orbit2frame`: `if orientation.upper() not in (...): raise ValueError` -/\n"
+            f"def orbit2frameTags : List String := {sl(o2f_tags)}\n"
+            f"def orbit2frameUpper : Bool := {b(o2f_up)}\n"
+            "/-- `KeplerianContinuousMan.__init__`: `kwargs[\"frame\"] = …` -/\n"
+            f"def kepContForcedFrame : String := {_lstr(first.value.value)}\n\n"
+            "end BeyondVerif.Generated.FrameNames\n")
+
+
+# ---- (d) inclination and node direction as Form._cartesian_to_keplerian computes them
+def extract_kep_plane(tree):
+    fn = py2lean.find_function(tree, "Form._cartesian_to_keplerian")
+    keep = {"r", "v", "h", "h_norm"}
+    pre, i_val, om_val = [], None, None
+    for st in fn.body:
+        if not isinstance(st, ast.Assign) or len(st.targets) != 1:
+            continue
+        names = {x.id for x in ast.walk(st.targets[0]) if isinstance(x, ast.Name)}
+        if names and names <= keep:
+            pre.append(st)
+        elif names == {"i"}:
+            i_val = st.value
+        elif names == {"Ω"} or names == {"Ω"}:
+            om_val = st.value
+    if i_val is None or om_val is None:
+        raise py2lean.Untranslatable("_cartesian_to_keplerian: i / Ω not found")
+    if not (isinstance(om_val, ast.BinOp) and isinstance(om_val.op, ast.Mod) and isinstance(om_val.left, ast.Call) and _n(om_val.left.func) in ("arctan2", "np.arctan2")
+            and _n(om_val.right) == "2*np.pi" and len(om_val.left.args) == 2):
+        raise py2lean.Untranslatable("_cartesian_to_keplerian: Ω is no longer arctan2(A, B) % (2π): " + _n(om_val))
+    cargs = [f"c{k}" for k in range(6)]
+    out = []
+    for lean_name, val, doc in (("kepInc", i_val, "`i`"), ("kepNodeY", om_val.left.args[0], "first argument of the `arctan2` giving `Ω`"),
+                                ("kepNodeX", om_val.left.args[1], "second argument of the `arctan2` giving `Ω`")):
+        tr = py2lean.TrFn()
+        tr.vecs["coord"] = list(cargs)
+        body = tr.stmts(pre + [ast.Return(value=val)])
+        out.append(f"/-- {doc} of `Form._cartesian_to_keplerian` (beyond/orbits/forms.py line {fn.lineno}) -/\ndef {lean_name} ({' '.join(cargs)} : R) : R :=\n{py2lean.indent(body)}\n")
+    return "\n".join(out)
 
 
 def extract(ctx):
@@ -138,15 +424,7 @@ def extract(ctx):
     a2 = [a.arg for a in py2lean.find_function(tree, "ContinuousMan.check").args.args]
     if a1 != ["self", "date", "step"] or a2 != ["self", "date"]:
         raise py2lean.Untranslatable(f"check signatures changed: {a1} {a2}")
-    # Butcher nodes c of the fixed/adaptive methods (stage dates = date + c * step), as exact fractions
-    from fractions import Fraction
-    from beyond.propagators.keplernum import KeplerNum
-    cs = []
-    for meth in ("euler", "rk4", "rkf54", "dopri54"):
-        fr = [Fraction(float(c)).limit_denominator(10000) for c in KeplerNum.BUTCHER[meth]["c"]]
-        if any(abs(float(f) - float(c)) > 1e-15 for f, c in zip(fr, KeplerNum.BUTCHER[meth]["c"])):
-            raise RuntimeError("Butcher nodes are not small fractions")
-        cs.append(f"def butcherC_{meth} : List (Int × Int) := [" + ", ".join(f"({f.numerator}, {f.denominator})" for f in fr) + "]")
+    butcher = extract_butcher()
     win = ("/- GENERATED by harness/props/C17.py from beyond/orbits/man.py (ImpulsiveMan.check, ContinuousMan.check) and\n"
            "   beyond/propagators/keplernum.py (Butcher nodes) — do not edit. Dates and steps are integer microseconds. -/\n"
            "namespace BeyondVerif.Generated\n\n"
@@ -156,9 +434,20 @@ def extract(ctx):
            "/-- `ContinuousMan.check(date)` -/\n"
            f"def contCheck (start stop date : Int) : Prop :=\n  {t2}\n\n"
            "instance (start stop date : Int) : Decidable (contCheck start stop date) := by unfold contCheck; exact inferInstance\n\n"
-           "/-- Butcher nodes `c` (numerator, denominator) of KeplerNum.BUTCHER -/\n" + "\n".join(cs) + "\n\nend BeyondVerif.Generated\n")
+           "/-- `KeplerNum.BUTCHER`: nodes `c` as the exact ratios (numerator, denominator) of the floats, weights `b = W / D` -/\n" + butcher + "\n\nend BeyondVerif.Generated\n")
     if core.write_if_changed(os.path.join(core.LEAN, "BeyondVerif", "Generated", "ManWindow.lean"), win):
         ch.append("Generated/ManWindow.lean")
+    # 4. loop structure of KeplerNum._accel -> Generated/AccelLoopSrc.lean (program) and Generated/AccelSrc{F,R}.lean (attraction term)
+    prog, grav = extract_accel_loop(ast.parse(open(KN_PY).read()))
+    if core.write_if_changed(os.path.join(core.LEAN, "BeyondVerif", "Generated", "AccelLoopSrc.lean"), prog):
+        ch.append("Generated/AccelLoopSrc.lean")
+    ch += py2lean.instantiate(core.LEAN, "AccelSrc", grav, "beyond/propagators/keplernum.py", extra_imports=["Model.Vec3"])
+    # 5. frame names -> Generated/FrameNames.lean
+    names = extract_frame_names(tree, ast.parse(open(LOCAL_PY).read()), ast.parse(open(FRAMES_PY).read()), ast.parse(open(ORIENT_PY).read()))
+    if core.write_if_changed(os.path.join(core.LEAN, "BeyondVerif", "Generated", "FrameNames.lean"), names):
+        ch.append("Generated/FrameNames.lean")
+    # 6. inclination / node direction of the cartesian -> keplerian conversion -> Generated/KepPlane{F,R}.lean
+    ch += py2lean.instantiate(core.LEAN, "KepPlane", extract_kep_plane(ast.parse(open(FORMS_PY).read())), "beyond/orbits/forms.py")
     ch += instantiate.main()
     return ch
 
